@@ -369,10 +369,14 @@ func (f *Frame) recv(i *ssa.UnOp, ch *Value) {
 	_ = pend
 	v := f.freshOf(f.id+"."+i.Name()+".v", el)
 	e.assumeAllocated(f.st, f.pc, v)
+	// ghost count of values taken from this channel by plain receives (ntaken): one more for every value delivered
+	nr := e.comp(f.st, "CH.taken", arrSort(sInt))
 	if i.CommaOk {
 		ok := e.declare(f.id+"."+i.Name()+".ok", sBool)
+		e.setComp(f.st, "CH.taken", store(nr, ch.T, ite(ok, app("+", sel(nr, ch.T), "1"), sel(nr, ch.T))))
 		f.vals[i] = &Value{Type: i.Type(), Tuple: []*Value{v, term(ok, sBool, types.Typ[types.Bool])}}
 	} else {
+		e.setComp(f.st, "CH.taken", store(nr, ch.T, app("+", sel(nr, ch.T), "1")))
 		f.vals[i] = v
 	}
 }
